@@ -111,6 +111,10 @@ PROPS.update({
     "C10": b("same generator with injected command failures (exit status, fatal signal, failure after writing one output, missing "
              "source input); no transitive consumer may run, the build must report failure, the command must be retried, and after "
              "repair the build converges (C08 oracle). Non-trivial: at least one build with a failing command."),
+    "C12": b("a source tree (depth <= 4, up to ~12 entries) consumed through a directory-tree or directory-structure node, with and without "
+             "exclusion patterns; tree edits at any depth (add, remove, rename, retype file<->directory, content edit, mtime-only touch, "
+             "mkdir, remove sub-tree) and node type/filter edits between builds in new frontends; the consumer must re-execute iff the "
+             "digest of what the node covers changed. Non-trivial: a tree edit happened and the consumer re-ran at least once."),
     "C11": b("commands read undeclared paths spelled with every character special to the formats (space # $ backslash colon, relative, "
              "absolute, sub-directories) and report them in Makefile-style (single line, continuations, CRLF, several rules) or "
              "dependency-info files; recovered paths are compared byte for byte, later edits/creations/deletions of those paths must "
